@@ -680,4 +680,5 @@ func run(cx *lib.Ctx) {
 			res.Sample(in)
 		}
 	}
+	corrJBody(cx)
 }
